@@ -254,11 +254,14 @@ class TimeArray(np.ndarray, TimeInterface):
 
     def _convert_if_needed(self,val):
         if not hasattr(val, '_conversion_factor'):
+            # Convert bare numbers to the base unit the same way the
+            # constructor does (integers exactly, floats rounded to the
+            # nearest base unit), without touching the caller's object:
             val = np.asarray(val)
-            if getattr(val, 'dtype', None) == np.int32:
-                # we'll overflow if val's dtype is np.int32
-                val = np.array(val, dtype=np.int64)
-            val *= self._conversion_factor
+            if issubclass(val.dtype.type, np.integer):
+                val = val.astype(np.int64) * self._conversion_factor
+            else:
+                val = (val * self._conversion_factor).round().astype(np.int64)
         return val
 
     def __add__(self, val):
